@@ -26,6 +26,7 @@ type PropConfig struct {
 	Safety      bool     `json:"safety"`
 	LockCheck   bool     `json:"lock_check"`
 	ExtraFuncs  []string `json:"extra_functions"`
+	Disciplines []string `json:"disciplines"`
 	NotDecided  []string `json:"not_decided"`
 	Assumptions []string `json:"assumptions"`
 	TimeoutMs   int      `json:"timeout_ms"`
@@ -133,6 +134,14 @@ func runCheck(id, repo, verif, tier string, seed int, freeze bool, keep string, 
 		}
 		for _, n := range f.Notes {
 			notes[n] = true
+		}
+	}
+	for _, disc := range cfg.Disciplines {
+		switch disc {
+		case "header-name":
+			fvcs = append(fvcs, d.DisciplineHeaderName())
+		default:
+			engineErrs = append(engineErrs, "unknown discipline "+disc)
 		}
 	}
 	results := solveAll(d, fvcs, dir, timeout, true)
